@@ -118,6 +118,37 @@ def check(ctx) -> Result:
             par = ctx.tree.parents(f.rel)
             ok = bool(raw) and all(isinstance(par.get(n), ast.Call) and src(par[n].func) == "process_parameter_value" for n in raw)
             res.add(ok, "T-parameter-through-accessor", f"{f.qualname}:{fld}", f.site(), f.qualname, "field read only through process_parameter_value", f"spec.{fld} (possibly a Parameter object) is used without process_parameter_value", construct=f"{f.qualname}:{fld}")
+    # ---- aggregates over a component's own collection (barrier modes, swap dictionary) tolerate the empty collection,
+    #      which the construction API allows (barrier([]), mode_swaps({}))
+    na = 0
+    for ci in (DS, DM):
+        for f in ci.multimethods.get("_add", []):
+            aliases = {"spec.modes", "spec.swaps"}
+            for a in walk_no_nested(f.node):
+                if isinstance(a, ast.Assign) and isinstance(a.targets[0], ast.Name) and any(al in src(a.value) for al in ("spec.modes", "spec.swaps")):
+                    aliases.add(a.targets[0].id)
+            par = ctx.tree.parents(f.rel)
+            for c in walk_no_nested(f.node):
+                if isinstance(c, ast.Call) and src(c.func) in ("max", "min") and len(c.args) == 1 and not any(k.arg == "default" for k in c.keywords):
+                    a0 = c.args[0]
+                    names = {src(x) for x in ast.walk(a0) if isinstance(x, (ast.Name, ast.Attribute))}
+                    over = None
+                    if isinstance(a0, (ast.GeneratorExp, ast.ListComp)):
+                        it = src(a0.generators[0].iter)
+                        over = it if it in aliases else None
+                    elif src(a0) in aliases:
+                        over = src(a0)
+                    if over is None:
+                        continue
+                    na += 1
+                    st = c
+                    while not isinstance(st, ast.stmt):
+                        st = par[st]
+                    facts = facts_at(f.node, st) or []
+                    guarded = any(f_ == frozenset({Lit("truthy", al)}) for f_ in facts for al in ("spec.modes", "spec.swaps", over))
+                    res.add(guarded, "E-aggregate-over-possibly-empty", f"{f.qualname}:{src(c)[:40]}", f.site(c), f.qualname, "guarded by an emptiness test (or default=)",
+                            f"`{src(c)[:60]}` raises ValueError when `{over}` is empty, and the construction API accepts an empty collection here: a constructible circuit cannot be displayed", construct=src(c)[:100])
+    res.floor("aggregates over component collections", na, 2)
     # ---- no side effects on the circuit
     n1 = rc_owner.c1_arguments(ctx, res, only_rels={SVG, MPL, DISP})
     res.floor("C1 display parameters", n1, 3)
